@@ -4,6 +4,7 @@ import (
 	"flag"
 	"fmt"
 	"sync"
+	"sync/atomic"
 	"testing"
 	"testing/synctest"
 	"time"
@@ -63,6 +64,7 @@ func TestHarness(t *testing.T) {
 			for i := 0; i < n; i++ {
 				loopbackCase(t, o, scheme, r.Fork())
 			}
+			stalledPeerCase(t, o, scheme)
 		}
 	}
 }
@@ -231,4 +233,114 @@ func loopbackCase(t *testing.T, o *out.W, scheme string, r *gen.Rng) {
 		hit("close-lost-accepted-send", "the buffered DISCONNECT accepted before Close() did not reach the peer")
 	}
 	o.Count("loopback/" + scheme + "/packets-checked")
+}
+
+// A peer that has stopped reading: a Send is stuck in the carrier write (socket buffers full) when the read timeout of
+// the same connection expires.  Receive must report the error (not panic), and that error ends the stuck Send and lets
+// Close return — alike over TCP and WebSocket.  Only monitors.
+func stalledPeerCase(t *testing.T, o *out.W, scheme string) {
+	o.Case("C19 stalled peer " + scheme)
+	o.Op("# stalled peer "+scheme, "# stalled peer "+scheme)
+	trace := []string{scheme + " loopback: the peer never reads; Send 64 KiB packets until one is stuck; SetReadTimeout(150ms); Receive; then Close"}
+	hit := func(kind, detail string) { o.Monitor("C19", kind, scheme+": "+detail, trace) }
+	srv, err := transport.Launch(scheme + "://localhost:0")
+	if err != nil {
+		o.Count("stalled/" + scheme + "/unavailable")
+		return
+	}
+	defer srv.Close()
+	accepted := make(chan transport.Conn, 1)
+	go func() {
+		if c, err := srv.Accept(); err == nil {
+			accepted <- c
+		} else {
+			close(accepted)
+		}
+	}()
+	cli, err := transport.Dial(scheme + "://" + srv.Addr().String())
+	if err != nil {
+		o.Count("stalled/" + scheme + "/unavailable")
+		return
+	}
+	var peer transport.Conn
+	select {
+	case peer = <-accepted:
+	case <-time.After(5 * time.Second):
+	}
+	if peer == nil {
+		o.Count("stalled/" + scheme + "/unavailable")
+		cli.Close()
+		return
+	}
+	defer peer.Close() // (never reads)
+	var sent atomic.Int64
+	sendDone := make(chan error, 1)
+	go func() {
+		for i := 1; i <= 2000; i++ {
+			if err := cli.Send(mkPacket(1, i, 64<<10), false); err != nil {
+				sendDone <- err
+				return
+			}
+			sent.Add(1)
+		}
+		sendDone <- nil
+	}()
+	// wait until the sender makes no progress any more
+	last, still := int64(-1), 0
+	for still < 6 {
+		time.Sleep(50 * time.Millisecond)
+		select {
+		case err := <-sendDone:
+			o.Count("stalled/" + scheme + "/never-stuck")
+			_ = err
+			cli.Close()
+			return
+		default:
+		}
+		if n := sent.Load(); n == last {
+			still++
+		} else {
+			last, still = n, 0
+		}
+	}
+	o.Count("stalled/" + scheme + "/cases")
+	cli.SetReadTimeout(150 * time.Millisecond)
+	type rres struct {
+		err error
+		pan interface{}
+	}
+	recvDone := make(chan rres, 1)
+	go func() {
+		var rr rres
+		defer func() {
+			rr.pan = recover()
+			recvDone <- rr
+		}()
+		_, rr.err = cli.Receive()
+	}()
+	select {
+	case rr := <-recvDone:
+		if rr.pan != nil {
+			hit("receive-error-panicked", fmt.Sprintf("Receive panicked when its read timeout expired while a Send was stuck: %v", rr.pan))
+		} else if rr.err == nil {
+			hit("receive-ok-after-close", "Receive returned a packet although the peer never sent one")
+		}
+	case <-time.After(5 * time.Second):
+		hit("call-waited", "Receive did not return within 5 s of a 150 ms read timeout (a Send of the same connection is stuck)")
+	}
+	select {
+	case err := <-sendDone:
+		if err == nil {
+			hit("send-ok-after-close", "the sender finished 2000 x 64 KiB although the peer never read")
+		}
+	case <-time.After(5 * time.Second):
+		hit("call-waited", "the stuck Send is still blocked 5 s after Receive failed: the receive error did not end it")
+	}
+	closed := make(chan struct{})
+	go func() { cli.Close(); close(closed) }()
+	select {
+	case <-closed:
+	case <-time.After(5 * time.Second):
+		hit("call-waited", "Close() after the receive error did not return within 5 s")
+	}
 }
